@@ -838,8 +838,13 @@ type modCG struct {
 }
 
 func (P *Prog) buildModCG() *modCG {
+	if P.modCGMemo != nil {
+		return P.modCGMemo
+	}
 	g := &modCG{P: P, callees: map[*ssa.Function][]*ssa.Function{}, sites: map[*ssa.Function][]ssa.CallInstruction{}}
+	P.modCGMemo = g
 	taken := map[*ssa.Function]bool{}
+	takenSigs := map[*ssa.Function][]*types.Signature{}
 	for _, fn := range P.Funcs {
 		eachInstr(fn, func(_ *ssa.BasicBlock, _ int, in ssa.Instruction) {
 			var ops []*ssa.Value
@@ -857,6 +862,8 @@ func (P *Prog) buildModCG() *modCG {
 				case *ssa.Function:
 					if !isCallee(f) && inModule(funcPkgPath(f)) {
 						taken[originOf(f)] = true
+						// the signature the value has where it is taken: that of the instance for a generic function
+						takenSigs[originOf(f)] = append(takenSigs[originOf(f)], stripRecv(f.Signature))
 					}
 				case *ssa.MakeClosure:
 					_ = f
@@ -930,7 +937,13 @@ func (P *Prog) buildModCG() *modCG {
 					// function of the same signature (sound, coarse)
 					sig, _ := ci.instr.Common().Value.Type().Underlying().(*types.Signature)
 					for _, f := range g.addrTaken {
-						if sig != nil && types.Identical(stripRecv(f.Signature), sig) {
+						match := sig != nil && types.Identical(stripRecv(f.Signature), sig)
+						for _, ts := range takenSigs[f] {
+							if sig != nil && types.Identical(ts, sig) {
+								match = true
+							}
+						}
+						if match {
 							add(f, ci.instr)
 						}
 					}
@@ -942,7 +955,7 @@ func (P *Prog) buildModCG() *modCG {
 }
 
 func stripRecv(s *types.Signature) *types.Signature {
-	if s.Recv() == nil {
+	if s.Recv() == nil && s.TypeParams().Len() == 0 {
 		return s
 	}
 	return types.NewSignatureType(nil, nil, nil, s.Params(), s.Results(), s.Variadic())
